@@ -447,6 +447,9 @@ func (g *c09Gen) plain(t ast.Type, depth int, violate bool) (v JV, violated bool
 	case ast.KindConstantRef:
 		return c09ConstJV(t.ConstantReference.ReferenceValue), false, true
 	case ast.KindArray:
+		if et := t.Array.ValueType; et.Kind == ast.KindScalar && et.Scalar.ScalarKind == ast.KindUint8 && !et.Nullable {
+			return jNull(), false, false // []uint8 is []byte: encoding/json prints base64 (C01's finding, not a builder matter)
+		}
 		n := g.r.intn(3)
 		if depth > 2 {
 			n = 0
